@@ -62,7 +62,7 @@ class _VTime(object):
         if w.sleeps > w.max_sleeps:
             raise WouldBlock('sleep budget exhausted (busy wait?)')
         w.pump()
-        w.clock.advance(d)
+        w.advance_time(d)
 
 
 # ---------------------------------------------------------------------------- futures / executor
@@ -593,6 +593,22 @@ class World(object):
     def live_timers(self):
         self.timers = [t for t in self.timers if not t.canceled and not getattr(t, 'fired', False)]
         return sorted(self.timers, key=lambda t: (t.end, t.seq))
+
+    def advance_time(self, d):
+        """Time passes while the current (single) thread of control is blocked in a timed wait or
+        sleep: the reactor thread would run every connection timer that falls due meanwhile, so
+        they fire here, in deadline order, before the clock reaches its new value."""
+        target = self.clock.now + max(d, 0)
+        guard = 0
+        while True:
+            guard += 1
+            if guard > 10000:
+                raise WouldBlock('timers keep re-arming while time advances')
+            live = self.live_timers()
+            if not live or live[0].end > target:
+                break
+            self.fire_timer(live[0])
+        self.clock.advance_to(target)
 
     def fire_timer(self, t):
         self.clock.advance_to(t.end)
